@@ -44,56 +44,64 @@ def run(repo: Repo, rep, tier: str):
 
 
 def _thresholds(repo: Repo, ci: ClassInfo, e: ast.expr) -> Optional[List[int]]:
-    """Constants that `self.min` is compared with in the conditional expression(s) of e (None = other tests)."""
+    """Constants that `self.min` is compared with anywhere in the conditional expression(s) of e."""
     out: List[int] = []
-    if not isinstance(e, ast.IfExp):
-        return out
-    t = e.test
+    for n in ast.walk(e):
+        if isinstance(n, ast.Compare) and len(n.ops) == 1:
+            l, r = n.left, n.comparators[0]
+            other = r if norm(l) == "self.min" else (l if norm(r) == "self.min" else None)
+            if other is not None:
+                try:
+                    c = repo.fold(other, ci=ci)
+                    if isinstance(c, int) and not isinstance(c, bool):
+                        out.append(c)
+                except NotConst:
+                    pass
+    return out
+
+
+class _SetMin(ast.NodeTransformer):
+    def __init__(self, m0: int):
+        self.m0 = m0
+
+    def visit_Attribute(self, node):
+        if norm(node) == "self.min" and isinstance(node.ctx, ast.Load):
+            return ast.copy_location(ast.Constant(value=self.m0), node)
+        return self.generic_visit(node)
+
+
+def _decide(repo: Repo, ci: ClassInfo, test: ast.expr, m0: int) -> Optional[bool]:
+    """Truth value of a condition that depends on nothing but self.min (and constants), for the concrete minimum m0."""
+    import copy as _copy
+    t = _resolve_for_case(repo, ci, _copy.deepcopy(test), m0)
     try:
-        const = repo.fold(t, ci=ci)
-        return _thresholds(repo, ci, e.body if const else e.orelse)
-    except NotConst:
-        pass
-    if isinstance(t, ast.Compare) and len(t.ops) == 1 and norm(t.left) == "self.min":
-        try:
-            c = repo.fold(t.comparators[0], ci=ci)
-        except NotConst:
-            return None
-        if not isinstance(c, int):
-            return None
-        out.append(c)
-        for br in (e.body, e.orelse):
-            sub = _thresholds(repo, ci, br)
-            if sub is None:
-                return None
-            out += sub
-        return out
+        v = repo.fold(_SetMin(m0).visit(_copy.deepcopy(t)), ci=ci)
+    except Exception:
+        return None
+    if isinstance(v, (int, bool)) or v is None:
+        return bool(v)
     return None
+
+
+def _resolve_for_case(repo: Repo, ci: ClassInfo, e: ast.expr, m0: int) -> ast.expr:
+    """`e` with every conditional expression whose test is decided by self.min = m0 replaced by the branch taken
+    (self.min stays symbolic in what remains)."""
+    class R(ast.NodeTransformer):
+        def visit_IfExp(self, node):
+            d = _decide(repo, ci, node.test, m0)
+            if d is None:
+                return self.generic_visit(node)
+            return self.visit(node.body if d else node.orelse)
+    import copy as _copy
+    return R().visit(_copy.deepcopy(e))
 
 
 def _branch_for_case(repo: Repo, ci: ClassInfo, e: ast.expr, m0: int) -> Optional[ast.expr]:
-    """Resolve `A if self.min <op> c else B` for the concrete minimum m0; None if not decidable."""
-    if not isinstance(e, ast.IfExp):
-        return e
-    t = e.test
-    try:
-        const = repo.fold(t, ci=ci)
-        return _branch_for_case(repo, ci, e.body if const else e.orelse, m0)
-    except NotConst:
-        pass
-    if isinstance(t, ast.Compare) and len(t.ops) == 1 and norm(t.left) == "self.min":
-        try:
-            c = repo.fold(t.comparators[0], ci=ci)
-        except NotConst:
-            return None
-        import operator
-        ops = {ast.Lt: operator.lt, ast.LtE: operator.le, ast.Gt: operator.gt, ast.GtE: operator.ge,
-               ast.Eq: operator.eq, ast.NotEq: operator.ne}
-        fn = ops.get(type(t.ops[0]))
-        if fn is None:
-            return None
-        return _branch_for_case(repo, ci, e.body if fn(m0, c) else e.orelse, m0)
-    return None
+    """Resolve the conditional expressions of `e` for the concrete minimum m0; None if one of them is not decided by self.min."""
+    out = _resolve_for_case(repo, ci, e, m0)
+    if any(isinstance(n, ast.IfExp) for n in ast.walk(out)):
+        return None
+    return out
 
 
 def _single_return(fn: ast.FunctionDef) -> Optional[ast.expr]:
@@ -482,7 +490,8 @@ def raw_guards(repo: Repo, rep, P: str, rule: str):
 # ------------------------------------------------------------------------------------ R3
 def pattern_value(repo: Repo, rep, P: str):
     ctl = repo.cls("Controller", module="rv.controller")
-    fn = repo.own_method(ctl, "pattern_value")
+    from .. import inline
+    fn = inline.normalize(repo, ctl, repo.own_method(ctl, "pattern_value"))
     rel = ctl.file.rel
     construct = f"{rel}:Controller.pattern_value"
     rep.func("rv.controller.Controller.pattern_value")
@@ -676,11 +685,33 @@ def dependent_parent(repo: Repo, rep, P: str):
     # instance_value_type goes through parent()
     ctl = repo.cls("Controller", module="rv.controller")
     ivt0 = repo.own_method(ctl, "instance_value_type")
-    ivt = inline.as_expression(inline.normalize(repo, ctl, ivt0, aliases=True))
+    ivtn = inline.normalize(repo, ctl, ivt0, aliases=True)
+    ivt = inline.as_expression(ivtn)
     s = norm(ivt) if ivt is not None else norm(ivt0)
     ip2 = [a.arg for a in ivt0.args.args if a.arg != "self"][0]
     verdict = "?"
-    if isinstance(ivt, ast.IfExp):
+    # try: r = <type>.parent / except AttributeError: return <type> / else: return r(instance)
+    tries = [st for st in ivtn.body if isinstance(st, ast.Try)]
+    if ivt is None and len(tries) == 1 and len([st for st in ivtn.body if not (isinstance(st, ast.Expr) and isinstance(st.value, ast.Constant))]) == 1:
+        t = tries[0]
+        if len(t.body) == 1 and isinstance(t.body[0], ast.Assign) and len(t.body[0].targets) == 1 and isinstance(t.body[0].targets[0], ast.Name) \
+                and norm(t.body[0].value) == "self.value_type.parent" and len(t.handlers) == 1 and t.handlers[0].type is not None \
+                and norm(t.handlers[0].type) == "AttributeError" and not t.finalbody:
+            r = t.body[0].targets[0].id
+            h_ret = [x for x in t.handlers[0].body if isinstance(x, ast.Return)]
+            e_ret = [x for x in t.orelse if isinstance(x, ast.Return)]
+            if len(h_ret) == 1 and len(e_ret) == 1 and len(t.handlers[0].body) == 1 and len(t.orelse) == 1:
+                verdict = "ok" if norm(h_ret[0].value) == "self.value_type" and norm(e_ret[0].value) == f"{r}({ip2})" else "bad"
+    # r = getattr(<type>, "parent", SENTINEL);  <type> if r is SENTINEL else r(instance)
+    if isinstance(ivt, ast.IfExp) and isinstance(ivt.test, ast.Compare) and len(ivt.test.ops) == 1 and isinstance(ivt.test.ops[0], (ast.Is, ast.IsNot)):
+        l, rr = ivt.test.left, ivt.test.comparators[0]
+        for g_, sent in ((l, rr), (rr, l)):
+            if isinstance(g_, ast.Call) and norm(g_.func) == "getattr" and len(g_.args) == 3 and norm(g_.args[0]) == "self.value_type" \
+                    and isinstance(g_.args[1], ast.Constant) and g_.args[1].value == "parent" and norm(g_.args[2]) == norm(sent):
+                missing_branch, present_branch = (ivt.body, ivt.orelse) if isinstance(ivt.test.ops[0], ast.Is) else (ivt.orelse, ivt.body)
+                dyn_ok = isinstance(present_branch, ast.Call) and norm(present_branch.func) == norm(g_) and [norm(a) for a in present_branch.args] == [ip2]
+                verdict = "ok" if dyn_ok and norm(missing_branch) == "self.value_type" else "bad"
+    if verdict == "?" and isinstance(ivt, ast.IfExp):
         f_true = guards.facts(ivt.test, True)
         has = "hasattr(self.value_type, 'parent')"
         dyn, plain = f"self.value_type.parent({ip2})", "self.value_type"
@@ -688,7 +719,7 @@ def dependent_parent(repo: Repo, rep, P: str):
             verdict = "ok" if (norm(ivt.body), norm(ivt.orelse)) == (dyn, plain) else "bad"
         elif f_true == {guards.canon_text(f"not {has}")}:
             verdict = "ok" if (norm(ivt.orelse), norm(ivt.body)) == (dyn, plain) else "bad"
-    elif ivt is not None and not any(isinstance(n, ast.Call) and isinstance(n.func, ast.Attribute) and n.func.attr == "parent" for n in ast.walk(ivt)):
+    elif verdict == "?" and ivt is not None and not any(isinstance(n, ast.Call) and isinstance(n.func, ast.Attribute) and n.func.attr == "parent" for n in ast.walk(ivt)):
         verdict = "bad"
     if verdict == "ok":
         rep.ok(f"{P}.R4", f"{rel}:Controller.instance_value_type", "value_type.parent(instance) for dependent ranges")
